@@ -484,7 +484,11 @@ func (s *Shard) SearchPoints(searchRequest models.SearchRequest) ([]models.Searc
 	if searchRequest.Limit == 0 {
 		searchRequest.Limit = len(finalResults)
 	}
-	finalResults = finalResults[min(searchRequest.Offset, len(finalResults)):min(searchRequest.Offset+searchRequest.Limit, len(finalResults))]
+	// The end is computed from what is left after the offset, the sum of a
+	// huge offset and the limit would overflow and give a negative bound.
+	start := min(searchRequest.Offset, len(finalResults))
+	end := start + min(searchRequest.Limit, len(finalResults)-start)
+	finalResults = finalResults[start:end]
 	// ---------------------------
 	return finalResults, nil
 }
